@@ -89,7 +89,7 @@ def harness(args, features="", timeout=3600):
 # ---------------------------------------------------------------------------------------------
 # TLC
 # ---------------------------------------------------------------------------------------------
-def tlc_mc(module, cfg, workers=12, timeout=1800, name=None, simulate=None, extra=None):
+def tlc_mc(module, cfg, workers=12, timeout=1800, name=None, simulate=None, extra=None, partial_ok=False):
     """Model-check spec/<module>.tla with spec/<cfg>. Returns dict with states, transitions,
     violated invariant (or None), per-action coverage and the raw tail."""
     name = name or cfg.replace(".cfg", "")
@@ -108,6 +108,15 @@ def tlc_mc(module, cfg, workers=12, timeout=1800, name=None, simulate=None, extr
     if m:
         res["transitions"] = int(m.group(1))
         res["states"] = int(m.group(2))
+    res["complete"] = rc == 0 or bool(m)
+    if rc == 124 and partial_ok and not m:
+        # time-boxed exploration: breadth-first up to wherever the time limit cut it; no invariant was violated in
+        # what was visited (TLC stops at the first violation), reported as incomplete
+        pm = re.findall(r"Progress\((\d+)\)[^\n]*?: ([\d,]+) states generated[^\n]*?, ([\d,]+) distinct states found", out)
+        if pm:
+            res["depth"] = int(pm[-1][0])
+            res["transitions"] = int(pm[-1][1].replace(",", ""))
+            res["states"] = int(pm[-1][2].replace(",", ""))
     m = re.search(r"Invariant (\S+) is violated", out)
     if m:
         res["violated"] = m.group(1)
@@ -130,9 +139,12 @@ def mc_or_die(module, cfg, expect_actions=None, **kw):
         log(r["tail"])
         raise ToolError("TLC failed on %s/%s" % (module, cfg))
     zero = [a for a, c in r["coverage"].items() if c == 0 and (expect_actions is None or a in expect_actions)]
+    if not r.get("complete", True):
+        zero = []       # a time-boxed breadth-first run has not reached the deep actions; vacuity is judged on the complete configs
     r["zero_actions"] = zero
-    log("[M] %s %s: %d distinct states, %d transitions, %.0fs, violated=%s%s" % (
-        module, cfg, r["states"], r["transitions"], r["wall_s"], r["violated"],
+    log("[M] %s %s: %d distinct states%s, %d transitions, %.0fs, violated=%s%s" % (
+        module, cfg, r["states"], "" if r.get("complete", True) else " (time-boxed, incomplete, depth %s)" % r.get("depth"),
+        r["transitions"], r["wall_s"], r["violated"],
         (" ZERO-COVERAGE " + ",".join(zero)) if zero else ""))
     return r
 
